@@ -513,9 +513,17 @@ class Interp:
         spec = self.loop_spec(node, frame)
         if spec is not None:
             return self.models.loop_with_invariant(self, node, frame, it, spec)
-        seq = self.models.concrete_iter(self, it)
+        seq = iter(self.models.concrete_iter(self, it))
         broke = False
-        for x in seq:
+        while True:
+            try:
+                x = next(seq)
+            except StopIteration:
+                break
+            except CONTROL:
+                raise
+            except Exception as exc:        # the iterator itself raised (e.g. a generator model): a Python exception of the program
+                raise PyRaise(exc)
             self.assign(node.target, x, frame)
             try:
                 self.exec_block(node.body, frame)
